@@ -293,5 +293,5 @@ func (e *Eng) modSpec(pats []string) ([]string, map[string]bool) {
 
 // frameFact states that component (term) now equals old at every index <= w.
 func frameFact(now, old, w string) string {
-	return fmt.Sprintf("(forall ((r Int)) (! (=> (<= r %s) (= (select %s r) (select %s r))) :pattern ((select %s r))))", w, now, old, now)
+	return fmt.Sprintf("(forall ((r Int)) (! (=> (<= (owner r) %s) (= (select %s r) (select %s r))) :pattern ((select %s r))))", w, now, old, now)
 }
